@@ -203,6 +203,16 @@ def run_case(case, drv):
                 if impl_groups != ner_groups:
                     res.corr_break("_get_partition", "Hopcroft partition differs from the Nerode partition",
                                    detail={"impl": impl_groups, "nerode": ner_groups})
+                # step-faithful tie: the refinement loop itself (class order, member order, splitter stack)
+                order = [codes.code(s) for s in obj._states]
+                symorder = [ycodes.code(y) for y in obj._input_symbols]
+                hop = drv.call("fa.hopcroft", A=X, order=order, symorder=symorder)
+                res.corr += 1
+                impl_exact = [[(None if s is None else codes.code(s)) for s in g] for g in part]
+                if impl_exact != hop:
+                    res.corr_break("_get_partition", "partition (class and member order) differs from the "
+                                   "faithful Hopcroft model", detail={"impl": impl_exact, "model": hop})
+                res.tag("hopcroft_classes_%d" % min(len(hop), 5))
     if truth["equiv"] and mins[0] is not None and mins[1] is not None:
         res.evals += 1
         if not drv.call("fa.iso", A=mins[0], B=mins[1]):
